@@ -90,6 +90,9 @@ Inductive case :=
 | CParseInt (text : bytes) (res : option Z)
 (* real config.RenderWithTemplate on the document the segments spell, with the given environment *)
 | CTemplate (envs : list (bytes * bytes)) (segs : list tseg) (res : tresult)
+(* a child process started with exactly the environment [environ] ("K=V" strings) renders the document
+   through the real file entry point LoadFileContentWithTemplate(path, GetValues()) *)
+| CEnvTemplate (environ : list bytes) (segs : list tseg) (res : tresult)
 (* real frps flag set: --dashboard_tls_mode <arg> with the cert and key file flags: parse error?, webServer.tls *)
 | CTlsFlag (arg cert key : bytes) (parse_err : bool) (tls : option TLSConfig).
 
@@ -168,6 +171,12 @@ Definition check_case (c : case) : Z :=
       | TErr, TErr => 0
       | _, _ => 82
       end
+  | CEnvTemplate environ segs res =>
+      match tpl_render (env_build environ) segs, res with
+      | TOk a, TOk b => if bytes_eqb a b then 0 else 83
+      | TErr, TErr => 0
+      | _, _ => 84
+      end
   | CTlsFlag arg cert key parse_err tls =>
       match flags_web_tls arg cert key with
       | None => if parse_err then 0 else 91
@@ -203,3 +212,11 @@ Definition is_no_return (c : case) : bool :=
   match c with CRangeNumbers _ RNNoReturn | CPairs _ _ PairsNoReturn => true | _ => false end.
 Definition is_template_ok (c : case) : bool := match c with CTemplate _ _ (TOk _) => true | _ => false end.
 Definition is_tls_flag_on (c : case) : bool := match c with CTlsFlag _ _ _ false (Some _) => true | _ => false end.
+Definition is_env_case (c : case) : bool := match c with CEnvTemplate _ _ (TOk _) => true | _ => false end.
+(* an environment entry whose value contains '=' *)
+Definition is_env_eq_case (c : case) : bool :=
+  match c with
+  | CEnvTemplate environ _ (TOk _) =>
+      existsb (fun e => match env_split e with Some (_, v) => existsb (fun b => Byte.eqb b tpl_eq) v | None => false end) environ
+  | _ => false
+  end.
